@@ -115,7 +115,9 @@ class FakeChannel:
         return [None, EOFError("connection lost"), RuntimeError("remote entry code raised"), None][kind]
 
     def isclosed(self) -> bool:
-        return not self.w.alive
+        # execnet closes a channel when its receiver thread has seen the end of the connection - not when the peer dies: between
+        # the death and the end marker the channel still looks open (and a send may raise, `oserror_window`)
+        return bool(self.w.end_seen)
 
     def close(self) -> None:
         pass
